@@ -76,6 +76,10 @@ static void offer(bool with_unknown) {
     if (with_unknown) { R.ukey[0] = 9; R.val[TK_UNK0] = Builder::mk(K_OPAQUE, nondet_u64()); R.seen |= (1u << TK_UNK0); }
     unsigned n = 0, tokens = 1;
     for (unsigned sl = 0; sl < TK_NSLOT; sl++) if ((R.seen >> sl) & 1u) { r_order[n++] = (uint8_t)sl; tokens += 2; if (R.val[sl].kind == K_ARR) tokens += (unsigned)R.val[sl].u + ((BLK_FORM & 2) ? 1 : 0); }
+#ifdef BLKR_REVERSE
+    // the same members in descending key order (block preamble last): CBOR maps are unordered (C08)
+    for (unsigned i = 0; i < n / 2; i++) { uint8_t t = r_order[i]; r_order[i] = r_order[n - 1 - i]; r_order[n - 1 - i] = t; }
+#endif
     r_nmem = n; r_indef = (BLK_FORM & 1) != 0; r_arr_indef = (BLK_FORM & 2) != 0;
     if (r_indef) tokens += 1;
     g_total_tokens = tokens;
